@@ -28,6 +28,10 @@ Part 3 (exhaustive plans): for share sizes 4 and 6, EVERY composition of the sha
 Part 4 (two uploads at once): all 20 interleavings of two three-step uploads (allocate share 0, first
   half, second half + close) of DIFFERENT storage indexes, compared after every step, then read back.
 
+Part 5 (big shares): a 200000-byte immutable share (3 chunks) and a 200000-byte mutable share; 17 reads around
+  the 64 KiB piece size of the HTTP server's streaming producer (65535/65536/65537, two pieces +-1, offsets 0, 1,
+  70000, tail), compared between the paths and with the bytes written.
+
 Oracle after every step: client-visible results equal after normalisation (sets/dicts/lists
 to sorted lists, remote references to a marker, exceptions to a class table {conflict,
 bad-write-enabler, error}); directory digests of T1 and T2 byte-equal (corruption advisory file
@@ -535,6 +539,64 @@ def _plan_chunk(chunk, seed):
     return res
 
 
+# ------------------------------------------------------------------ part 5: shares larger than one streaming piece
+BIG = 200000
+BIG_PAIRS = [(0, BIG), (0, 65535), (0, 65536), (0, 65537), (1, 65536), (1, 65537), (65535, 2), (65536, 65536), (70000, 100000),
+             (0, 131072), (0, 131073), (100, 131072), (131071, 3), (BIG - 70000, 70000), (BIG - 70000, 90000), (BIG - 1, 5), (BIG, 1)]
+
+
+def big_check(case, seed=None):
+    """a 200000-byte immutable share (uploaded in 3 chunks) and a 200000-byte mutable share: reads longer than the
+    64 KiB pieces the HTTP server streams, at zero and non-zero offsets, compared between the two paths"""
+    seed = boot.SEED if seed is None else seed
+    tw = Twins(seed, b"c31-big")
+    viols = []
+    n = 0
+    try:
+        k = tw.k
+        if case["what"] == "imm":
+            tw.k.data[0] = bytes((i * 7 + (i >> 8) * 13 + seed) % 251 for i in range(BIG))
+            model = ImmModel(BIG)
+            imm_apply(tw, model, BIG, ["alloc", [0], 1], viols, True)
+            for (off, ln) in ((0, 60000), (60000, 80000), (140000, 60000)):
+                imm_apply(tw, model, BIG, ["write", 0, off, ln, "d"], viols, True)
+            n = imm_reads(tw, BIG, BIG_PAIRS, viols, "200000-byte immutable share")
+            if n != len(BIG_PAIRS) and not viols:
+                viols.append(("big-share-not-readable", "only %d of %d reads were possible" % (n, len(BIG_PAIRS))))
+        else:
+            data = bytes((i * 11 + (i >> 8) * 5 + seed) % 251 for i in range(BIG))
+            secrets = (k.W[1], k.renew[1], k.cancel[1])
+            a, b = tw.both(lambda s, i: s.slot_testv_and_readv_and_writev(k.M, secrets, {0: ([], [(0, data)], None)}, []))
+            if not same(a, b) or a[0] != "ok":
+                viols.append(("rtw-differs:%s/%s" % (a[0], b[0]), "creating the 200000-byte mutable share: http=%s foolscap=%s" % (show(a), show(b))))
+            for (o, l) in BIG_PAIRS:
+                a, b = tw.both(lambda s, i: s.slot_readv(k.M, [0], [(o, l)]))
+                n += 1
+                if not same(a, b):
+                    viols.append(("slot_readv-differs:big", "slot_readv(offset %d, length %d) of a 200000-byte mutable share: http=%s foolscap=%s" % (o, l, show(a)[:120], show(b)[:120])))
+                elif a[0] == "ok" and a[2].get(0) != [data[o:o + l]]:
+                    viols.append(("slot_readv-wrong:big", "slot_readv(offset %d, length %d) on both paths differs from the bytes written" % (o, l)))
+            # several ranges in one request
+            rv = [(0, 70000), (130000, 70000), (65536, 65537)]
+            a, b = tw.both(lambda s, i: s.slot_readv(k.M, [0], rv))
+            n += 1
+            if not same(a, b):
+                viols.append(("slot_readv-differs:big", "slot_readv(%r): http and foolscap differ" % (rv,)))
+    finally:
+        tw.close()
+    return _dedup(viols), n
+
+
+def _big_chunk(chunk, seed):
+    res = common.Result()
+    for case in chunk:
+        viols, n = big_check(case, seed)
+        res.count("big_reads", n)
+        for sig, msg in viols:
+            res.violation(sig, {"kind": "big", "what": case["what"], "seed": seed}, msg)
+    return res
+
+
 # ------------------------------------------------------------------ part 4: two uploads in progress at once
 def twosi_orders():
     """every interleaving of two three-step uploads (allocate share 0, write first half, write second half
@@ -651,6 +713,8 @@ def replay(case):
     seed = boot.SEED if seed is None else seed
     if case.get("kind") == "plan":
         return plan_check(case, seed)[0]
+    if case.get("kind") == "big":
+        return big_check(case, seed)[0]
     if case.get("kind") == "version":
         return version_check(seed)
     if case.get("kind") == "twosi":
@@ -725,6 +789,7 @@ def run(tier, seed):
         total.violation(sig, {"kind": "version"}, msg)
     total.merge(explore(depth, seed))
     total.merge(common.pmap(_twosi_chunk, twosi_orders(), (seed,)))
+    total.merge(common.pmap(_big_chunk, [{"what": "imm"}, {"what": "mut"}], (seed,), chunks=2))
     c = total.counts
     nplans = c.get("transitions:plan", 0) - 1
     plan_steps = sum(len(p) + 1 for sz in (4, 6) for p in all_plans(sz)) if nplans > 0 else 0
@@ -737,7 +802,7 @@ def run(tier, seed):
         "mutable_states": c.get("states:mut", 0), "mutable_transitions": c.get("transitions:mut", 0),
         "upload_plans": nplans, "upload_plan_steps": plan_steps,
         "reads_per_plan_sweep": {"size4": len(all_pairs(4)), "size6": len(all_pairs(6))},
-        "two_upload_interleavings": c.get("twosi_interleavings", 0), "two_upload_steps": c.get("twosi_steps", 0),
+        "big_share_reads": c.get("big_reads", 0), "two_upload_interleavings": c.get("twosi_interleavings", 0), "two_upload_steps": c.get("twosi_steps", 0),
         "bfs_depth": depth,
         "state_cap_hit": bool(total.notes.get("capped")),
         "rule": "twin real servers (HTTP path / Foolscap path); BFS to depth %d over the immutable alphabet (allocate x2 quick / x3 thorough, every sub-range write of a 4-byte share, conflicting and overflowing writes, dead-handle write, abort, add_lease, advise, zero-length read, full read sweep) and over the mutable alphabet (12 read-test-write requests, add_lease, advise, readv of a missing share, zero-length readv, full slot_readv sweep); every transition runs both real paths and compares results, directory digests and BucketWriter tables; plus every composition of a 4- and a 6-byte share into <= 3 chunks in every order (%d plans; each chunk is a compared step, a plan whose share cannot be read back completely is a violation) with every (offset <= size+2, 1 <= length <= size+3) read; plus all 20 interleavings of two three-step uploads of different storage indexes using the same share number, compared after every step and read back" % (depth, nplans),
